@@ -66,6 +66,21 @@ def check(case):
         if outcome != ref.OUTCOME[expected]:
             fail("outcome", f"{text!r} under {assignment}: (fulfilled, conditional) = {outcome}, "
                  f"state {expected} must be reported as {ref.OUTCOME[expected]}")  # fmt: skip
+        # entry point 2 with user-style evaluators (one evaluate_<key> method per condition, a hints provider class), next
+        # to which evaluators for another EDIFACT format with the opposite answers are registered
+        from vlib import sched
+
+        hints = {a[1]: f"Hinweis {a[1]}" for a in ref.atoms_of(ast) if a[0] == "hint"}
+        fcs = {a[1]: True for a in ref.atoms_of(ast) if a[0] == "fc"}
+        method_based = len(units) < 8  # building evaluator classes is comparatively slow: the first 8 assignments only
+        if method_based:
+            sut.configure(sched.make_providers(sched.Schedule([]), rc=assignment, fc=fcs, hints=hints))
+            res = sut.call(api.requirement_constraint_evaluation, text)
+        if method_based and not res.ok:
+            fail("evaluation-raises", f"requirement_constraint_evaluation({text!r}) with method-based evaluators under {assignment} raised {res!r}")
+        if method_based and evalhelp.outcome_of(res.value) != ref.OUTCOME[expected]:
+            fail("outcome", f"{text!r} under {assignment} with method-based evaluators (a second evaluator set for another "
+                 f"format is registered too): {evalhelp.outcome_of(res.value)}, expected {ref.OUTCOME[expected]}")  # fmt: skip
         # entry point 2 again, this time given the already parsed tree
         evalhelp.setup_for(ast, assignment)
         res = sut.call(api.requirement_constraint_evaluation, shared_tree_2)
